@@ -16,6 +16,10 @@ pub enum Prog {
     Push(Box<Prog>), Roe(Box<Prog>), And(Box<Prog>, Box<Prog>), Or(Box<Prog>, Box<Prog>),
     Str(String), Ins(String), Rng(char, char), Cby(Vec<(u32, u32)>), Skip(usize), Until(Vec<String>),
     Soi, Eoi, Peek, Pop, MPeek, MPop, Drop, Slice(i32, Option<i32>, bool /*bottom to top*/), Lit(String), Tag(String), Call(usize), Ok, Fail,
+    /// a named function of generated code (`self::name(state)`); `FnSkip` = `super::hidden::skip(state)`
+    Fn(String), FnSkip,
+    /// `if state.atomicity() == NonAtomic { p } else { Ok(state) }`
+    IfNA(Box<Prog>),
 }
 
 pub fn hexs(s: &str) -> String { crate::hexs(s) }
@@ -34,6 +38,7 @@ impl Prog {
             Soi => "soi".into(), Eoi => "eoi".into(), Peek => "peek".into(), Pop => "pop".into(), MPeek => "mpeek".into(), MPop => "mpop".into(), Drop => "drop".into(),
             Slice(a, b, d) => format!("(slice {} {} {})", a, b.map(|x| x.to_string()).unwrap_or("_".into()), if *d { "B" } else { "T" }),
             Lit(s) => format!("(lit {})", hexs(s)), Tag(s) => format!("(tag {})", hexs(s)), Call(i) => format!("(call {})", i), Ok => "ok".into(), Fail => "fail".into(),
+            Fn(n) => format!("(fn {})", n), FnSkip => "(fnskip)".into(), IfNA(p) => format!("(ifna {})", p.show()),
         }
     }
 }
@@ -115,8 +120,15 @@ fn limit_hit(s: &St<'_>) -> bool {
     let _ = s; false
 }
 
+thread_local! { pub static FNS: RefCell<HashMap<String, Prog>> = RefCell::new(HashMap::new()); }
 pub fn run<'i>(p: &Prog, env: &[Prog], s: St<'i>, o: &Obs<'i>) -> ParseResult<St<'i>> {
     use Prog::*;
+    match p {
+        Fn(n) => { let f = FNS.with(|m| m.borrow().get(n).cloned()); return match f { Some(f) => run(&f, env, s, o), None => panic!("undefined function {}", n) }; }
+        FnSkip => { let f = FNS.with(|m| m.borrow().get("skip").cloned()); return match f { Some(f) => run(&f, env, s, o), None => panic!("no skip function") }; }
+        IfNA(q) => { return if s.atomicity() == Atomicity::NonAtomic { run(q, env, s, o) } else { Result::Ok(s) }; }
+        _ => {}
+    }
     let _ = limit_hit;
     match p {
         Ok => Result::Ok(s), Fail => Err(s),
@@ -224,6 +236,7 @@ pub fn run<'i>(p: &Prog, env: &[Prog], s: St<'i>, o: &Obs<'i>) -> ParseResult<St
         }
         Lit(x) => s.stack_push_literal(x.clone()),
         Tag(t) => s.tag_node(intern(t)),
+        Fn(_) | FnSkip | IfNA(_) => unreachable!(),
     }
 }
 
